@@ -9,6 +9,7 @@ import ALV.Lemmas.C19Table
 import ALV.Lemmas.C19Real
 import ALV.Lemmas.C19Resample
 import ALV.Lemmas.C19TableOps
+import ALV.Lemmas.C19Obj
 import Mathlib.Tactic.NormNum
 import ALV.Common.Audit
 
@@ -297,6 +298,146 @@ example : resample [(1 : Rat), 2, 4, 8] (.num (1/2)) 1 0 20 = .ok ([1, 3/2, 2, 3
 example : resampleSpec [(1 : Rat), 2, 4, 8] (.num (1/2)) 1 0 20 = ([1, 3/2, 2, 3, 4, 6, 8], true) := by
   decide +kernel
 example : (resampleSpec [(1 : Rat), 2, 4, 8, 3] (.num (3/4)) 0 0 20).1 = [1, 2, 2, 4, 8, 3, 3] := by
+  decide +kernel
+
+/-! ## `TableLookup` objects are mutable: histories
+
+A history is any sequence of operations on a heap of python lists, `TableLookup` objects referring
+to them (several objects may share one list) and open oscillator streams: attribute assignments
+`tl.table = …` / `tl.cycles = …`, in-place list changes, operators / `normalize` / `harmonize`,
+`tl(freq, phase)` (a lazy stream, read in chunks, several alive at once), `tl[idx]`, `len(tl)`,
+`==`.  `histModel` is the code as written — the `table` setter caches `len(table)`, a call reads
+the cached length, `self.cycles` and `self.table` once —, `histSpec` answers every use from the
+*current* table contents and the *current* `cycles`.  `denOf c` is the value of `c * 2 * pi`. -/
+
+/-- **C19.hist.0** the empty heap satisfies the invariant (no list is empty; every `_table` is a
+list; every cached length is the length of the list it was taken from). -/
+theorem hist_invariant_initial : WF ({ lists := [], objs := [], oscs := [] } : Heap K) :=
+  ⟨by simp, by simp, by simp⟩
+
+/-- **C19.hist.1** the invariant is kept by every operation — assignments of either attribute,
+in-place item assignment, every operator, `normalize`, `harmonize`, calls, reads, and every
+*failing* operation — except the two that change the length of a list behind the object's back
+(`append`, `pop`) and the assignment of something without a length to `table` (`HOp.safe`). -/
+theorem hist_invariant_preserved (denOf : K → K) (h : Heap K) (ops : List (HOp K)) (w : WF h)
+    (hs : ∀ op ∈ ops, op.safe) : WF (runHeap denOf h ops) := runHeap_WF denOf ops h w hs
+
+/-- **C19.hist.2** every step of every such history, as coded = as specified: each oscillator read
+is the cyclic linear interpolation of the table its stream refers to, at `len/(cycles·2π)`
+positions per radian with the `cycles` of the moment of the call; `tl[idx]`, `len(tl)`, the
+operators' compatibility checks and `harmonize` use the current table. -/
+theorem hist_model_eq_spec (denOf : K → K) (h : Heap K) (ops : List (HOp K)) (w : WF h)
+    (hs : ∀ op ∈ ops, op.safe) : histModel denOf h ops = histSpec denOf h ops :=
+  histModel_eq_histSpec denOf ops h w hs
+
+/-- **C19.hist.3** the oscillator depends only on the current table and the current `cycles`:
+after whatever history (invariant kept), calling object `i` and reading `n` samples gives the
+specification evaluated on the contents `xs` of its list and on its `cycles` — the right-hand side
+mentions nothing else of the heap (no cached value, no earlier assignment). -/
+theorem hist_oscillator_reads_current_value (denOf : K → K) (h : Heap K) (w : WF h) (i : Nat)
+    (f p : Arg K) (n : Nat) (xs : List K) (c : K) (e : h.value? i = some (xs, c)) (hd : denOf c ≠ 0) :
+    (step denOf (step denOf h (.call i f p)).1 (.read h.oscs.length n)).2
+      = .samples (tableSpec xs (denOf c) f p n)
+          (if (tableSpec xs (denOf c) f p n).length < n then "stop" else "fuel") := by
+  unfold Heap.value? at e
+  cases e' : h.obj? i with
+  | none => simp [e'] at e
+  | some q =>
+    obtain ⟨o, t⟩ := q
+    simp only [e', Option.map_some, Option.some.injEq, Prod.mk.injEq] at e
+    obtain ⟨rfl, rfl⟩ := e
+    exact call_read_current denOf h w i f p n o t e' hd
+
+/-- **C19.hist.3b** hence two objects with equal table contents and equal `cycles` — in two heaps
+reached by arbitrary different histories — sound the same. -/
+theorem hist_oscillator_depends_only_on_value (denOf : K → K) (h₁ h₂ : Heap K) (w₁ : WF h₁) (w₂ : WF h₂)
+    (i j : Nat) (f p : Arg K) (n : Nat) (xs : List K) (c : K)
+    (e₁ : h₁.value? i = some (xs, c)) (e₂ : h₂.value? j = some (xs, c)) (hd : denOf c ≠ 0) :
+    (step denOf (step denOf h₁ (.call i f p)).1 (.read h₁.oscs.length n)).2
+      = (step denOf (step denOf h₂ (.call j f p)).1 (.read h₂.oscs.length n)).2 := by
+  rw [hist_oscillator_reads_current_value denOf h₁ w₁ i f p n xs c e₁ hd,
+      hist_oscillator_reads_current_value denOf h₂ w₂ j f p n xs c e₂ hd]
+
+/-- **C19.hist.4** a stream that is already open is isolated from everything that happens to the
+object afterwards: whatever operations follow — assignments of `table` or `cycles`, operators,
+other calls, reads of other streams —, as long as the list the stream refers to is not changed in
+place and the stream itself is not read, its next samples are what they would have been. -/
+theorem hist_stream_isolated (denOf : K → K) (h : Heap K) (ops : List (HOp K)) (s k : Nat)
+    (o : Osc K) (xs : List K) (ho : h.oscs[s]? = some o) (hx : h.lists[o.tbl]? = some xs)
+    (hall : ∀ op ∈ ops, ¬ op.mutatesList o.tbl ∧ ¬ op.readsStream s) :
+    (step denOf (runHeap denOf h ops) (.read s k)).2 = (step denOf h (.read s k)).2 := by
+  obtain ⟨a, b⟩ := runHeap_keeps_stream denOf ops h ho hx hall
+  exact read_obs_congr denOf h _ s k o (some xs) ho hx a b
+
+/-- **C19.hist.5** a failing operation (ValueError of incompatible operands or of `normalize` on
+zeros, NotImplementedError for an unknown scalar type, IndexError, ZeroDivisionError, TypeError on
+a broken object) leaves the heap exactly as it was — with one exception, forced: the `table`
+setter stores its argument *before* asking for its length, so `tl.table = <no len()>` raises
+TypeError with `_table` already replaced (defect D17, `example` below; the specification
+`specStep` leaves the object alone there). -/
+theorem hist_failing_step_changes_nothing (denOf : K → K) (h : Heap K) (op : HOp K) (e : String)
+    (hne : ¬ op.isUnsizedAssign) (he : (step denOf h op).2 = .err e) : (step denOf h op).1 = h :=
+  step_err_unchanged denOf h op e hne he
+
+/-- **C19.hist.5b** in the specification every failing operation, that assignment included,
+changes nothing. -/
+theorem hist_spec_failing_step_changes_nothing (denOf : K → K) (h : Heap K) (w : WF h) (op : HOp K)
+    (e : String) (he : (specStep denOf h op).2 = .err e) : (specStep denOf h op).1 = h := by
+  by_cases hu : op.isUnsizedAssign
+  · cases op <;> simp only [HOp.isUnsizedAssign] at hu
+    simp only [specStep]; split <;> rfl
+  · by_cases hs : op.safe
+    · rw [← step_eq_specStep denOf h op w hs] at he ⊢
+      exact step_err_unchanged denOf h op e hu he
+    · cases op <;> simp only [HOp.safe, HOp.isUnsizedAssign, not_true_eq_false, not_false_eq_true] at hs hu
+      all_goals exact step_err_unchanged denOf h _ e (by simp [HOp.isUnsizedAssign]) he
+
+/-- **C19.hist.6** uses are pure: reading a stream, `tl[idx]`, `len`, `==` and looking at the table
+change no list and no object. -/
+theorem hist_uses_are_pure (denOf : K → K) (h : Heap K) (op : HOp K) (hu : op.isUse) :
+    (step denOf h op).1.lists = h.lists ∧ (step denOf h op).1.objs = h.objs :=
+  step_use_pure denOf h op hu
+
+/-- **C19.hist.7** operators, `normalize` and `harmonize` return new objects with new lists: every
+existing list, object and stream is left as it was (at most one list and one object are added). -/
+theorem hist_operators_allocate (denOf : K → K) (h : Heap K) (op : HOp K) (ho : op.isOperator) :
+    ∃ ls os, (step denOf h op).1.lists = h.lists ++ ls ∧ (step denOf h op).1.objs = h.objs ++ os ∧
+      ls.length ≤ 1 ∧ os.length = ls.length ∧ (step denOf h op).1.oscs = h.oscs :=
+  step_operator_fresh denOf h op ho
+
+/-! non-vacuity, on exact rationals (`denOf = id`: one table per `cycles` radians).  One object,
+called; `cycles` reassigned; called again: the second stream runs at the new speed, the first one
+goes on at the old one. -/
+example : histModel (fun c : Rat => c) { lists := [], objs := [], oscs := [] }
+    [.newList [0, 10, 20, 30], .new 0 1, .call 0 (.num (3/8)) (.num (1/2)), .read 0 4,
+     .setCycles 0 2, .call 0 (.num (3/8)) (.num (1/2)), .read 1 4, .read 0 2, .len 0]
+    = [.ref 0, .ref 0, .ref 0, .samples [20, 15, 10, 25] "fuel",
+       .unit, .ref 1, .samples [10, 35/2, 25, 45/2] "fuel", .samples [0, 15] "fuel", .nat 4] := by
+  decide +kernel
+-- a failing operator, then an operator result edited in place: the operand is untouched
+example : histModel (fun c : Rat => c) { lists := [], objs := [], oscs := [] }
+    [.newList [1, 2], .new 0 1, .newList [5, 6, 7], .new 1 1, .binary .add 0 1, .neg 0,
+     .setItem 2 0 9, .table 2, .table 0]
+    = [.ref 0, .ref 0, .ref 1, .ref 1, .err "ValueError", .ref 2, .unit, .table [9, -2] 1, .table [1, 2] 1] := by
+  decide +kernel
+-- the hypothesis `safe` of C19.hist.1/2 is forced: after `table.append(x)` the cached length is
+-- stale and the oscillator is the cyclic interpolation of neither the old nor the new table
+example : histModel (fun c : Rat => c) { lists := [], objs := [], oscs := [] }
+      [.newList [0, 10, 20, 30], .new 0 4, .append 0 40, .call 0 (.num (1/2)) (.num 0), .read 0 8, .len 0]
+    = [.ref 0, .ref 0, .unit, .ref 0, .samples [0, 10, 10, 20, 20, 30, 30, 15] "fuel", .nat 4] ∧
+    histSpec (fun c : Rat => c) { lists := [], objs := [], oscs := [] }
+      [.newList [0, 10, 20, 30], .new 0 4, .append 0 40, .call 0 (.num (1/2)) (.num 0), .read 0 8, .len 0]
+    = [.ref 0, .ref 0, .unit, .ref 0, .samples [0, 25/4, 25/2, 75/4, 25, 125/4, 75/2, 25] "fuel", .nat 5] := by
+  decide +kernel
+
+-- D17: the failing assignment is not atomic in the code as written — afterwards the object's
+-- table cannot be read any more, while the specification leaves it as it was
+example : histModel (fun c : Rat => c) { lists := [], objs := [], oscs := [] }
+      [.newList [0, 10], .new 0 1, .setTableUnsized 0, .table 0, .len 0]
+    = [.ref 0, .ref 0, .err "TypeError", .err "TypeError", .nat 2] ∧
+    histSpec (fun c : Rat => c) { lists := [], objs := [], oscs := [] }
+      [.newList [0, 10], .new 0 1, .setTableUnsized 0, .table 0, .len 0]
+    = [.ref 0, .ref 0, .err "TypeError", .table [0, 10] 1, .nat 2] := by
   decide +kernel
 
 end ALV.Props.C19
